@@ -673,6 +673,16 @@ def run(ctx):
                             'of a piece depend on where it stands' % short(x_, 50), construct='read of in_math_mode: ' + short(x_, 40))
     ctx.holds('R03q', m, None, 'no read of in_math_mode in latex2text', construct='in_math_mode scan', trivial=True)
 
+    # ---- R03r (C12 R12b), R03s (C08 R08k)
+    ctx.rule('R03r', 'math_mode=verbatim gives the source of the formula unchanged (display formulas through the block formatter '
+                     'with indent=\'\' only), remove gives nothing, with-delimiters keeps the delimiters (C12 R12b)', 10)
+    from . import c12 as _c12
+    _core.run_proxied(ctx, _c12, 'R03r', ('R12b',))
+    ctx.rule('R03s', 'no function of latex2text changes a module-level table in place: what a macro renders to does not depend '
+                     'on what the process rendered before (an accent remembered per base letter, a spec remembered per name) '
+                     '(C08 R08k)', 1)
+    _core.run_proxied(ctx, _c08, 'R03s', ('R08k',))
+
     return 'other', (
         'Decides the policy tables against the documented semantics and the shape of the functions '
         'through which the documented rules are applied (dispatch per node kind, scoping of the '
